@@ -52,3 +52,8 @@ Definition check_mcp (c : rxcase) : bool :=
          forallb (fun K => tre K ||
             Bool.eqb (mem_pair (tname R) (tvalue K) (x_unl c))
                      (onat_eq (m_cp R (tvalue K) 0) (Some (String.length (tvalue K))))) (x_terms c)) (x_terms c)).
+
+(* both checks of a character-level case in one evaluation; the code says which one failed *)
+Definition check_relex_all (c : rxcase) : bool := check_relex c && check_mcp c.
+Definition check_relex_code (c : rxcase) : nat :=
+  if negb (check_relex c) then 1 else if negb (check_mcp c) then 2 else 0.
